@@ -224,6 +224,107 @@ func c02(r *core.Run) {
 	c02Comm(r)
 	c03GateSwap(r, "C02.SWAP")
 	c02DeclOrder(r)
+	c02PhiOrder(r)
+	c02TripPolarity(r)
+}
+
+// c02PhiOrder: a value first mentioned by a phi gets its register name when the phi is written; the operands must
+// therefore be rendered after the edges were put into canonical (sorted) order, otherwise exchanging the arms of
+// an if — which the branch normalisation undoes for the block names — still exchanges the names of the two values.
+func c02PhiOrder(r *core.Run) {
+	p := r.P
+	n := 0
+	for _, fn := range p.FuncsIn("pkg/analysis/ir") {
+		writesPhi := false
+		core.InstrsOf(fn, func(in ssa.Instruction) {
+			if c := core.CallOf(in); c != nil && strings.HasSuffix(core.CalleeName(c), "strings.Builder).WriteString") && len(c.Args) > 1 {
+				if s, ok := core.ConstString(c.Args[1]); ok && s == "Phi" {
+					writesPhi = true
+				}
+			}
+		})
+		if !writesPhi {
+			continue
+		}
+		n++
+		var sorts, renders []ssa.Instruction
+		core.InstrsOf(fn, func(in ssa.Instruction) {
+			c := core.CallOf(in)
+			if c == nil {
+				return
+			}
+			name := core.CalleeName(c)
+			if strings.HasPrefix(name, "sort.") || strings.HasPrefix(name, "slices.Sort") {
+				sorts = append(sorts, in)
+			}
+			if g := core.StaticCallee(c); g != nil && p.IsProdFunc(g) && g.Name() == "NormalizeOperand" {
+				renders = append(renders, in)
+			}
+		})
+		ok := len(sorts) > 0 && len(renders) > 0
+		for _, rd := range renders {
+			after := false
+			for _, so := range sorts {
+				if core.Precedes(so, rd) {
+					after = true
+				}
+			}
+			if !after {
+				ok = false
+			}
+		}
+		r.Check(ok, "C02.PHIORDER", core.FuncName(fn)+"#operands-rendered-after-sort", fn.Pos(), "phi operands are rendered (and forward references named) after the edges were sorted", "phi operands are rendered before the edges are sorted: a forward-referenced value is named in the order of the real predecessors, so exchanging the arms of an if inside a loop changes the fingerprint")
+	}
+	r.Floor("C02.PHIORDER", "phi writer of the canonicaliser", n, 1)
+}
+
+// c02TripPolarity: writing a loop test as the opposite test with the exit on the true edge ("for !(i >= n)") must
+// yield the same trip-count annotation: the derivation handles both orientations by complementing the operator.
+func c02TripPolarity(r *core.Run) {
+	p := r.P
+	n := 0
+	for _, fn := range p.FuncsIn("pkg/analysis/loop") {
+		stores := false
+		core.InstrsOf(fn, func(in ssa.Instruction) {
+			if st, ok := in.(*ssa.Store); ok {
+				if fa, ok := st.Addr.(*ssa.FieldAddr); ok && core.FieldName(fa.X.Type(), fa.Field) == "TripCount" {
+					stores = true
+				}
+			}
+		})
+		if !stores {
+			continue
+		}
+		n++
+		ph := tripOperatorPhi(fn)
+		consts := 0
+		if ph != nil {
+			for _, e := range ph.Edges {
+				if _, isC := core.ConstInt(e); isC {
+					consts++
+				}
+			}
+		}
+		r.Check(ph != nil && consts >= 4, "C02.TRIPSWAP", core.FuncName(fn)+"#both-orientations", fn.Pos(), "the trip count is derived for both orientations of the header test (operator complemented when the true edge exits)", "the trip count is derived only when the true edge of the header test stays in the loop: the same loop written with the opposite test gets 'TripCount: ?' and a different fingerprint")
+	}
+	r.Floor("C02.TRIPSWAP", "trip-count derivation", n, 1)
+}
+
+// tripOperatorPhi: the token-typed phi that the trip-count derivation switches on (operator as written / complemented).
+func tripOperatorPhi(fn *ssa.Function) *ssa.Phi {
+	var out *ssa.Phi
+	core.InstrsOf(fn, func(in ssa.Instruction) {
+		b, ok := in.(*ssa.BinOp)
+		if !ok || b.Op != token.EQL {
+			return
+		}
+		if ph, isPhi := b.X.(*ssa.Phi); isPhi && strings.HasSuffix(ph.Type().String(), "token.Token") {
+			if _, isC := core.ConstInt(b.Y); isC {
+				out = ph
+			}
+		}
+	})
+	return out
 }
 
 func c02Self(r *core.Run) {
